@@ -180,21 +180,20 @@ def gen_pairs(name, rng, n):
     return pairs
 
 
-def run(name, n=2000, seed=0, umodel=None, verbose=True):
+def run(name, n=2000, seed=0, umodel=None, verbose=True, structured=False, extra_strings=(), extra_pairs=()):
     rng = common.rng_for(seed, "scheme_corr", name)
-    strings = gen_strings(name, rng, n)
-    pairs = gen_pairs(name, rng, n)
+    strings = list(extra_strings) + gen_strings(name, rng, n)
+    pairs = list(extra_pairs) + gen_pairs(name, rng, n)
+    dis = []
     lines = ["vparse %s %s" % (name, hx(s)) for s in strings] + \
             ["vcmp %s %s %s" % (name, hx(a), hx(b)) for a, b in pairs]
     exe = umodel or str(common.UMODEL)
     p = subprocess.run([exe], input="\n".join(lines) + "\n", stdout=subprocess.PIPE, stderr=subprocess.PIPE, text=True)
     if p.returncode != 0:
-        print("driver failed:", p.stderr[-1000:])
-        return 2
+        raise common.Tooling("driver failed: " + p.stderr[-1000:])
     out = p.stdout.split("\n")[:-1]
     if len(out) != len(lines):
-        print("driver answered %d lines for %d" % (len(out), len(lines)))
-        return 2
+        raise common.Tooling("driver answered %d lines for %d" % (len(out), len(lines)))
     rawf = raw_sign(name)
     bad = 0
     stats = {"parse_ok": 0, "parse_invalid": 0, "parse_raise": 0, "cmp": 0, "cmp_eq": 0, "cmp_invalid": 0}
@@ -203,6 +202,7 @@ def run(name, n=2000, seed=0, umodel=None, verbose=True):
         stats["parse_ok" if impl.startswith("ok") else ("parse_invalid" if impl == "invalid" else "parse_raise")] += 1
         if impl != ans:
             bad += 1
+            dis.append({"kind": "parse", "a": s, "impl": impl, "model": ans})
             if bad <= 15 and verbose:
                 print("PARSE MISMATCH %r: impl=%s model=%s" % (s, _show(impl), _show(ans)))
     for (a, b), ans in zip(pairs, out[len(strings):]):
@@ -214,10 +214,17 @@ def run(name, n=2000, seed=0, umodel=None, verbose=True):
             stats["cmp_eq"] += 1
         if not agree_cmp(impl, ans):
             bad += 1
+            dis.append({"kind": "cmp", "a": a, "b": b, "impl": impl, "model": ans})
             if bad <= 15 and verbose:
                 print("CMP MISMATCH %r vs %r: impl=%s model=%s" % (a, b, impl, ans))
     if verbose:
         print("scheme=%s strings=%d pairs=%d %s mismatches=%d" % (name, len(strings), len(pairs), stats, bad))
+    if structured:
+        stats["strings"] = len(strings)
+        stats["pairs"] = len(pairs)
+        stats["sample_pair"] = list(pairs[len(extra_pairs)]) if len(pairs) > len(extra_pairs) else None
+        stats["sample_answer"] = out[len(strings) + len(extra_pairs)] if len(pairs) > len(extra_pairs) else None
+        return (1 if bad else 0), stats, dis
     return 1 if bad else 0
 
 
